@@ -197,7 +197,9 @@ structure LState where
 
 def gapCatalogue : List String :=
   [" ", "  ", "\n", "\t", " \n  ", "\r\n", " /* c */ ", " // c\n", "\n\n    ", " /* é\n x */\n", "\t\t ",
-   "/*é✓ü*/", "/* peut être → ✓ */", "/**/", "/***/", "//é✓\n", "/* * / */"]
+   "/*é✓ü*/", "/* peut être → ✓ */", "/**/", "/***/", "//é✓\n", "/* * / */",
+   -- a lone carriage return does not end a line comment; CR LF does
+   " // old:\r x: bool\n", "//\r\n", "/* \r */", "// a\r\r\n"]
 
 /-- style 0 = canonical; otherwise pseudo-random layout driven by the state's generator -/
 def emitGap (style : Nat) (st : LState) (canon : String) (mandatory : Bool) : LState :=
